@@ -366,19 +366,27 @@ fn parse_token(text: &str) -> IResult<&str, Token> {
     }
 }
 
-fn parse_token_not_semicolon(text: &str) -> IResult<&str, Token> {
-    let (rest, token) = parse_token(text)?;
-    // A declaration value ends at a semicolon or at the block's closing brace
-    // (the final semicolon of a block is optional).
-    if token == Token::Semicolon || token == Token::CloseBrace {
-        fail(text)
-    } else {
-        Ok((rest, token))
-    }
-}
-
 fn parse_value(text: &str) -> IResult<&str, RawValue> {
-    let (rest, mut tokens) = many0(parse_token_not_semicolon)(text)?;
+    // A declaration value ends at the block's closing brace (the final semicolon
+    // of a block is optional) or at a semicolon - unless the semicolon is inside
+    // parentheses or square brackets, as in url(data:image/png;base64,...).
+    let mut rest = text;
+    let mut tokens = Vec::new();
+    let mut depth = 0usize;
+    while let Ok((next, token)) = parse_token(rest) {
+        match token {
+            Token::CloseBrace => break,
+            Token::Semicolon if depth == 0 => break,
+            Token::Function(_) | Token::OpenRound | Token::OpenSquare => depth += 1,
+            Token::CloseRound | Token::CloseSquare => depth = depth.saturating_sub(1),
+            _ => (),
+        }
+        if next.len() == rest.len() {
+            break;
+        }
+        tokens.push(token);
+        rest = next;
+    }
     let mut important = false;
     if let [.., Token::Delim('!'), Token::Ident(x)] = &tokens[..] {
         if x == "important" {
@@ -790,6 +798,12 @@ fn parse_content(value: &RawValue) -> Result<String, nom::Err<nom::error::Error<
 }
 
 pub(crate) fn parse_rules(text: &str) -> IResult<&str, Vec<Declaration>> {
+    // Empty declarations may also come before the first one ("{; color: red}").
+    let (text, _) = many0(tuple((
+        skip_optional_whitespace,
+        tag(";"),
+        skip_optional_whitespace,
+    )))(text)?;
     separated_list0(
         // Whitespace may come before a semicolon, and empty declarations
         // (";;") are allowed.
